@@ -44,7 +44,7 @@ def theorems(*pids):
     reg = json.load(open(os.path.join(VERIF, 'harness', 'theorems.json')))
     out = []
     for pid in pids:
-        for t in reg[pid]:
+        for t in reg.get(pid, []):
             if t not in out:
                 out.append(t)
     return out
